@@ -12,6 +12,8 @@ Families (helpers in hsverif/c12_*.py):
             third proposer's phase-1 quorum meets the choosing quorum in that acceptor only (random roles / timing)
   flex      FlexiblePaxosNode, every (Q1, Q2) with Q1 + Q2 > N
   multi     MultiPaxosNode, take-over, heartbeats
+  multi_handover  fault-free Multi-Paxos hand-over, client commands forwarded (MultiPaxosForward) to the old leader at
+            offsets swept across the hand-over round trip, the new leader bringing its own command
   election  LeaderElection x {Bully, Ring, Randomized}, member views full / converging / join, crashes
   lock      DistributedLock, 1-3 lock names on one manager, random acquire / try / release (own, stale, bogus token) /
             expiry strings; tokens strictly increasing over all grants of the manager in grant-time order
@@ -38,6 +40,9 @@ RULE = (
     "single_adv = scripted per-message rules (one very slow link, targeted drops) building the stale-Accept-after-choice "
     "schedule with random roles and timing; non-trivial when a lower-ballot Accept reached an acceptor that had already "
     "answered Accepted for a higher ballot and two proposers each collected an Accepted quorum. "
+    "multi_handover = fault-free constant-delay hand-over with commands forwarded to the old leader at offsets in "
+    "[-1.5, +4.5] link delays around the campaign; non-trivial when two leaders were seen, a slot was decided and a Forward "
+    "reached the old leader between the Prepare it answered and the new leader's first heartbeat. "
     "Non-trivial: single = >= 2 proposals and two proposers whose phase 1 was open at the same time (measured from the "
     "Prepare / Accept sends seen on the wire), fault-free single = every node decided; flex / multi = >= 2 distinct "
     "nodes became leader and >= 1 slot was reported decided (fault-free: >= 1 slot decided); election = >= 2 "
@@ -63,11 +68,12 @@ FAMILIES = {
     "single_adv": Family("single_adv", c12_single.gen_single_adv, c12_single.run_single, case_timeout=30.0),
     "flex": Family("flex", c12_log.gen_log("flex"), c12_log.run_log("flex"), case_timeout=30.0),
     "multi": Family("multi", c12_log.gen_log("multi"), c12_log.run_log("multi"), case_timeout=30.0),
+    "multi_handover": Family("multi_handover", c12_log.gen_handover, c12_log.run_log("multi"), case_timeout=30.0),
     "election": Family("election", c12_election.gen_election, c12_election.run_election, case_timeout=30.0),
     "lock": Family("lock", c12_lock.gen_lock, c12_lock.run_lock, shrink=c12_lock.shrink_lock, case_timeout=20.0),
 }
 
 BUDGET = {
-    "quick": {"single": 6000, "single_adv": 400, "flex": 400, "multi": 400, "election": 600, "lock": 2000},
-    "thorough": {"single": 400000, "single_adv": 20000, "flex": 40000, "multi": 40000, "election": 30000, "lock": 200000},
+    "quick": {"single": 6000, "single_adv": 400, "flex": 400, "multi": 400, "multi_handover": 600, "election": 600, "lock": 2000},
+    "thorough": {"single": 400000, "single_adv": 20000, "flex": 40000, "multi": 40000, "multi_handover": 20000, "election": 30000, "lock": 200000},
 }
